@@ -1059,6 +1059,10 @@ def gen_ops(rng, cfg, seed_tag):
             drawn = mutate(worlds[k], rng, seed_tag)
             if drawn is None:
                 continue
+            if "base_spec" not in drawn and rng.random() < 0.4:
+                # the valid world was built and validated in this process
+                # before (same identifiers as the arrangement)
+                drawn["base_spec"] = worlds[k]
             ops.append({"op": "arrange", "node": node(), "h": h(), **drawn})
         if rng.random() < 0.05:
             ops.append({"op": "restart", "node": node()})
